@@ -43,6 +43,7 @@ func init() {
 			"M6 the duplicate output-name rejection of StructType.compile sees every member with a non-empty out filename (lookup, then error or insertion, on every such iteration) and the struct synthesised from each callable's outputs is compiled by it. " +
 			"M7 a relative link target is joined with the directory of the very link it was read from; M8 a missing source is recorded as null only after the destination under outs/ was looked at. " +
 			"M9 a decoded map's key is joined into a path only behind IsLegalUnixFilename(key) == nil; M10 a loop collecting the keys of a decoded map collects every key. " +
+			"M11 copyOutSymlink writes no value derived from GetOutFilename(); M12 readers of ArrayType.Elem in post-processing also read Dim; M13 after processStructOuts the value passed in is neither returned nor stored as the element's record. " +
 			"NOT decided: file contents, which files exist, symlink arithmetic (relative paths), that the hand-assembled JSON is valid beyond these conditions, display output.",
 		Assumptions: append([]string{
 			"values of static type json.RawMessage hold JSON text (they come from json.Unmarshal into RawMessage-based containers or from encoders); a conversion of a string to json.RawMessage is reported",
@@ -431,6 +432,9 @@ func runC13(c *an.Ctx) {
 	s.ruleM8()
 	ruleM9(s)
 	ruleM10(s)
+	ruleM11(s)
+	ruleM12(s)
+	ruleM13(s)
 	ruleM6(c)
 }
 
